@@ -172,7 +172,7 @@ class Gen:
                         self.gone.add(q)
                         s.add(b + q[len(a):])
         elif k == "chmod":
-            c.update(name=self.some(), perm=r.choice([0o600, 0o644, 0o755, 0o400, 0o4755]))
+            c.update(name=self.some(), perm=r.choice([0o600, 0o644, 0o755, 0o400, 0o711]))
         elif k == "chown":
             c.update(name=self.some(), uid=r.choice([0, 1000, 65534]), gid=r.choice([0, 100, 1000]))
         elif k == "chtimes":
